@@ -34,6 +34,24 @@ type tcase struct {
 	Conc  int    `json:"conc"`
 }
 
+// scratch is the caller-owned key buffer of a client that reuses one buffer for every call and overwrites it afterwards:
+// a container must have copied whatever it keeps (seed C36-1).
+type scratch struct{ b []byte }
+
+func newScratch() *scratch { return &scratch{b: make([]byte, 1024)} }
+func (s *scratch) of(k []byte) []byte {
+	if len(k) > len(s.b) {
+		s.b = make([]byte, 2*len(k))
+	}
+	n := copy(s.b, k)
+	return s.b[:n:n]
+}
+func (s *scratch) garble() {
+	for i := range s.b {
+		s.b[i] = 0xEE
+	}
+}
+
 const patRadix = "radix_min_max_after_delete_prefix"
 const patRhhEmpty = "rhh_len_ignores_empty_key"
 
@@ -51,10 +69,13 @@ func rhhKeys(style int, rng *rand.Rand) [][]byte {
 			out = append(out, []byte(fmt.Sprintf("k%d-%d", i, rng.Intn(1000))))
 		}
 	case 1:
-		want := int64(rng.Intn(64))
+		// two keys with home slot h, two with h+1 (for every capacity <= 64): inserting an h-key after an (h+1)-key
+		// displaces the latter (robin hood swap)
+		want := int64(rng.Intn(63))
+		homes := []int64{want, want + 1, want, want + 1}
 		for n := rng.Intn(100000); len(out) < 4; n++ {
 			k := []byte(fmt.Sprintf("cpu,host=server%07d", n))
-			if rhh.HashKey(k)&63 == want {
+			if rhh.HashKey(k)&63 == homes[len(out)] {
 				out = append(out, k)
 			}
 		}
@@ -74,6 +95,7 @@ func runRhh(c *tcase, rng *rand.Rand) rt.Result {
 	m := rhh.NewHashMap(opts[(c.Conc/4)%len(opts)])
 	evals := 0
 	grew := false
+	sc := newScratch()
 	var pending *rt.Result
 	cap0 := m.Cap()
 	for i, s := range c.Steps {
@@ -87,10 +109,11 @@ func runRhh(c *tcase, rng *rand.Rand) rt.Result {
 		switch s.A {
 		case "put":
 			if c.Conc%2 == 0 {
-				m.Put(append([]byte(nil), keys[s.K-1]...), s.V)
+				m.Put(sc.of(keys[s.K-1]), s.V)
 			} else {
-				m.PutQuiet(keys[s.K-1], s.V)
+				m.PutQuiet(sc.of(keys[s.K-1]), s.V)
 			}
+			sc.garble()
 		case "reset":
 			m.Reset()
 		case "grow":
@@ -104,7 +127,8 @@ func runRhh(c *tcase, rng *rand.Rand) rt.Result {
 		var present [][]byte
 		for j, k := range keys {
 			evals++
-			got := m.Get(k)
+			got := m.Get(sc.of(k))
+			sc.garble()
 			want := exp.Get[j]
 			if want == 0 {
 				if got != nil {
@@ -164,6 +188,7 @@ func runBloom(c *tcase, rng *rand.Rand) rt.Result {
 	keys := rhhKeys(c.Conc/20, rng)
 	f := []*bloom.Filter{bloom.NewFilter(mb, kh), bloom.NewFilter(mb, kh)}
 	evals, fpos, negs := 0, 0, 0
+	sc := newScratch()
 	for i, s := range c.Steps {
 		var exp struct {
 			F1 []int `json:"f1"`
@@ -174,11 +199,12 @@ func runBloom(c *tcase, rng *rand.Rand) rt.Result {
 		}
 		switch s.A {
 		case "insert":
-			k := append([]byte(nil), keys[s.K-1]...)
+			k := sc.of(keys[s.K-1])
 			f[s.F-1].Insert(k)
 			if !bytes.Equal(k, keys[s.K-1]) {
 				return fail(i, "bloom: Insert modified the caller's key", k, keys[s.K-1])
 			}
+			sc.garble()
 		case "merge":
 			if err := f[0].Merge(f[1]); err != nil {
 				return fail(i, "bloom: Merge of two filters with equal m,k failed: "+err.Error(), err.Error(), nil)
@@ -202,7 +228,8 @@ func runBloom(c *tcase, rng *rand.Rand) rt.Result {
 			}
 			for k := 1; k <= 4; k++ {
 				evals++
-				got := f[fi].Contains(keys[k-1])
+				got := f[fi].Contains(sc.of(keys[k-1]))
+				sc.garble()
 				if in[k] && !got {
 					return fail(i, fmt.Sprintf("bloom: filter %d reports inserted key %d as absent (false negative) after %s", fi+1, k, s.A), false, true)
 				}
@@ -252,6 +279,7 @@ func runRadix(c *tcase, rng *rand.Rand) rt.Result {
 	t := radix.New()
 	evals := 0
 	nontrivial := false
+	sc := newScratch()
 	deleted := false // some DeletePrefix removed at least one key
 	var pending *rt.Result
 	for i, s := range c.Steps {
@@ -290,7 +318,8 @@ func runRadix(c *tcase, rng *rand.Rand) rt.Result {
 				N int `json:"n"`
 			}
 			json.Unmarshal(exp.Ret, &ret)
-			n := t.DeletePrefix(conc(s.Key))
+			n := t.DeletePrefix(sc.of(conc(s.Key)))
+			sc.garble()
 			evals++
 			if n != ret.N {
 				return fail(i, fmt.Sprintf("radix: DeletePrefix(%v) deleted %d entries", s.Key, n), n, ret.N)
@@ -311,7 +340,8 @@ func runRadix(c *tcase, rng *rand.Rand) rt.Result {
 		for _, k := range append(append([][]int{}, rk...), others...) {
 			ck := conc(k)
 			evals++
-			v, ok := t.Get(ck)
+			v, ok := t.Get(sc.of(ck))
+			sc.garble()
 			wv, wok := want[string(ck)]
 			if ok != wok || (ok && v != wv) {
 				return fail(i, fmt.Sprintf("radix: Get(%v) after %s", k, s.A), []interface{}{v, ok}, []interface{}{wv, wok})
@@ -467,7 +497,11 @@ func runIdset(c *tcase, rng *rand.Rand) rt.Result {
 					w.Add(id)
 				}
 			} else {
-				w.AddMany(blocks[s.K-1]...)
+				tmp := append([]uint64(nil), blocks[s.K-1]...)
+				w.AddMany(tmp...)
+				for x := range tmp {
+					tmp[x] = 0xEEEEEEEE // the caller reuses its slice
+				}
 			}
 		case "remove":
 			for _, id := range blocks[s.K-1] {
@@ -522,6 +556,9 @@ func runIdset(c *tcase, rng *rand.Rand) rt.Result {
 					return fail(i, "idset: UnmarshalBinaryUnsafe(WriteTo()) failed: "+err.Error(), err.Error(), nil)
 				}
 				n = n.Clone() // the unsafe form shares the buffer: a consumer that goes on mutating takes a copy
+			}
+			for x := range buf.Bytes() {
+				buf.Bytes()[x] = 0xEE // the caller reuses its buffer
 			}
 			if !n.Equals(w) {
 				return fail(i, "idset: set read back from its serialisation is not Equal to the original", n.String(), w.String())
